@@ -125,7 +125,7 @@ def corrupt_watch(lines, pid):
         return None
 
 
-FAMILIES["watch"] = dict(vdrive="watch", trace_module="TraceD2Watch", trace_cfg="TraceD2Watch.cfg", corrupt=corrupt_watch, engine="TraceD2Watch")
+FAMILIES["watch"] = dict(vdrive="watch", trace_module="TraceD2Watch", trace_cfg="TraceD2Watch.cfg", corrupt=corrupt_watch, engine="TraceD2Watch", repro_attempts=4)
 
 _watch_base = dict(
     quick=[dict(module="D2Watch", cfg="D2Watch_quick.cfg"),
@@ -250,8 +250,8 @@ PROPS["C12"] = dict(
     technique="globs as standing rules in the TLA+ reference interpreter D2IR (applied to existing targets at the declaration, to later targets at their creation, before the creating declaration's own value), model-checked by TLC (GlobNow, GlobLater); every compiled program prefix compared by TLC with the model",
     base=dict(quick=[dict(module="D2IR", cfg="D2IR_glob.cfg", renames=_GLOB_RENAMES)],
               thorough=[dict(module="D2IR", cfg="D2IR_glob_thorough.cfg", renames=_GLOB_RENAMES, timeout=1800)]),
-    rule="programs over the 24-declaration alphabet specs/ir_alphabet_glob.json: objects at depth 1-3 (one mixed-case), explicit shapes/strokes/labels, object nulls, connections, and 9 glob rules "
-         "(* and ** at the root, scoped a.* and a.**, b.*, prefix pattern a*, suffix pattern *2) setting shape, label, stroke, opacity; every program of length <= 2 / <= 3 plus 2500 / 30000 seeded programs of length up to 7 / 10. "
+    rule="programs over the 28-declaration alphabet specs/ir_alphabet_glob.json: objects at depth 1-3 (one mixed-case), explicit shapes/strokes/labels, object nulls, connections, and 13 glob rules "
+         "(* and ** at the root, scoped a.* and a.**, b.*, prefix patterns a* and A*, suffix patterns *2, *B and *C with upper-case literals, infix a*2) setting shape, label, stroke, opacity; every program of length <= 2 / <= 3 plus 2500 / 30000 seeded programs of length up to 7 / 10. "
          "Non-trivial: contains a glob and at least one more declaration.",
     exhaustive=dict(quick=True, thorough=True),
     assumptions=["object globs with scalar bodies only; glob filters, edge globs, triple globs across boards/imports and globs written inside a nested map are not in this alphabet",
